@@ -706,7 +706,7 @@ def run(rep, tier):
     seen_th = set()
     for s in scripts:
         for o in s["ops"]:
-            if "name" in o:
+            if o.get("name") in lib:
                 seen_th.add(o["name"])
     canon_ths = sorted(set(canon_ths) | seen_th)
     pick = lambda xs: rnd.choice(xs)
